@@ -18,6 +18,7 @@ import (
 	"oras.land/oras-go/v2/content/memory"
 	"oras.land/oras-go/v2/content/oci"
 	. "oras.land/oras-go/v2/internal/zzverif/common"
+	"oras.land/oras-go/v2/registry/remote"
 	"verif.local/engine/driver"
 	"verif.local/engine/explore"
 	"verif.local/engine/vs"
@@ -28,12 +29,12 @@ func TestVerif(t *testing.T) {
 		ID:    "C03",
 		Level: "model_checking",
 		Rule: "scenario = DAG (curated family + every U(4) shape with a subject or index) x start node x Depth 0..3 x filter (none | artifact-type regex per type present / no match / all | " +
-			"annotation key, value regex) x source kind (memory with plain descriptors, memory with rich descriptors, OCI layout written then reopened read-write / fs.FS / tar, file store) x API; " +
+			"annotation key, value regex) x source kind (memory with plain descriptors, memory with rich descriptors, OCI layout written then reopened read-write / fs.FS / tar, file store, remote Repository via Referrers API / via tag schema) x API; " +
 			"default schedule for the sweep, every schedule within D<=2 (map-order deviations O<=1 at the roots map) for multi-root shapes. Oracle: generator's inverse edge list. " +
 			"non-trivial = distinct scenario whose start node has at least one ancestor",
 		Assumptions: []string{
 			"index nodes carry no artifactType of their own (the statement's 'artifactType, else config media type' is decided for image and artifact manifests)",
-			"remote sources (Referrers API / tag schema) are exercised by the C13/C14 harness family against the registry model",
+			"remote sources are a Repository over the in-process registry model (Referrers API with a server page cap of 1, and tag schema); their predecessor relation is the referrers relation",
 		},
 		Jobs:           jobs,
 		BudgetQuick:    200,
@@ -63,7 +64,7 @@ func (s scen) name() string {
 	return fmt.Sprintf("%s/start=%s/depth=%d/filter=%v/src=%s/%s/conc=%d", s.d.Name, s.d.Nodes[s.start].Name, s.depth, s.f, s.src, s.api, s.conc)
 }
 
-var srcKinds = []string{"memory-plain", "memory-rich", "oci-rw", "oci-fs", "oci-tar", "file"}
+var srcKinds = []string{"memory-plain", "memory-rich", "oci-rw", "oci-fs", "oci-tar", "file", "remote-api", "remote-tags"}
 
 func filtersFor(d *DAG) []filter {
 	out := []filter{{}}
@@ -82,6 +83,8 @@ func filtersFor(d *DAG) []filter {
 		out = append(out, filter{kind: "type", re: "^" + regexp.QuoteMeta(t) + "$"})
 	}
 	out = append(out, filter{kind: "type", re: "^nomatch$"}, filter{kind: "type", re: ".*"})
+	// unanchored literals: a regular expression without metacharacters still matches substrings
+	out = append(out, filter{kind: "type", re: "sig"}, filter{kind: "type", re: "vnd"})
 	out = append(out, filter{kind: "ann", key: "k"}, filter{kind: "ann", key: "k", re: "^v1$"}, filter{kind: "ann", key: "absent"})
 	return out
 }
@@ -110,7 +113,10 @@ func jobs(tier string) []driver.Job {
 					for depth := 0; depth <= 3; depth++ {
 						for _, sk := range srcKinds {
 							for _, api := range []string{"extgraph", "ext"} {
-								if api == "ext" && (depth > 1 || sk != "memory-plain" && sk != "oci-rw") {
+								if api == "ext" && (depth > 1 || sk != "memory-plain" && sk != "oci-rw" && !strings.HasPrefix(sk, "remote")) {
+									continue
+								}
+								if api == "ext" && strings.HasPrefix(sk, "remote") && !d.Nodes[start].Kind.IsManifest() {
 									continue
 								}
 								s := scen{d: d, start: start, depth: depth, f: f, src: sk, api: api, conc: 2}
@@ -231,6 +237,24 @@ func (s scen) buildSrc() (srcStore, func()) {
 	}
 	startDesc := d.Nodes[s.start].Desc
 	switch s.src {
+	case "remote-api", "remote-tags":
+		g := NewRegistry("reg.example", Profile{ReferrersAPI: s.src == "remote-api", PageSize: 1, OCISubject: s.src == "remote-api", LinkForm: 1})
+		repo, err := remote.NewRepository("reg.example/src/repo")
+		if err != nil {
+			panic(err)
+		}
+		repo.Client = g
+		repo.ReferrerListPageSize = 50 // above the registry's own cap of 1 entry per page
+		push(repo, false)
+		if d.Nodes[s.start].Kind.IsManifest() {
+			if err := repo.Tag(ctx, startDesc, "ref"); err != nil {
+				panic(err)
+			}
+		}
+		if len(g.Rejects) > 0 {
+			panic("registry model rejected a request: " + g.Rejects[0])
+		}
+		return repo, func() {}
 	case "memory-plain", "memory-rich":
 		m := memory.New()
 		push(m, s.src == "memory-rich")
@@ -342,6 +366,9 @@ func (s scen) make() (func(), func(*vs.Result) *driver.Fail) {
 			x := q[0]
 			q = q[1:]
 			for _, p := range d.Preds(x, nil) {
+				if strings.HasPrefix(s.src, "remote") && d.Nodes[p].Subject != x {
+					continue // a Repository's predecessor relation is the referrers relation
+				}
 				if !s.pass(p) {
 					continue
 				}
